@@ -347,7 +347,7 @@ func TestVerifC20(t *testing.T) {
 	}
 	if shard == 0 {
 		ips := []string{"1.2.3.4", "5.6.7.8", "10.0.0.1"}
-		dts := []int64{0, c20Interval, c20Interval + 1}
+		dts := []int64{0, c20Interval, c20Interval + 1, 3 * c20Interval}
 		nAlt := len(ips) * len(dts)
 		seq := make([]int, depth)
 		var nSeq, nOps int64
@@ -390,6 +390,6 @@ func TestVerifC20(t *testing.T) {
 		rep.AddTrans(nOps)
 		rep.AddExecs(nSeq)
 		rep.Extra["sequences"] = nSeq
-		rep.Sample(map[string]any{"sequence_depth": depth, "alphabet": "Inc(a|b|wl) x dt{0,I,I+1ns}", "sequences": nSeq})
+		rep.Sample(map[string]any{"sequence_depth": depth, "alphabet": "Inc(a|b|wl) x dt{0,I,I+1ns,3I}", "sequences": nSeq})
 	}
 }
